@@ -344,26 +344,45 @@ def rule_fence(ctx, res):
                           unparse(v)), f.module.loc(fin[0]))
     # _accept honours the fence
     a = model.func(P + ':Parser._accept')
-    cfg = cfg_of(a)
-    consume = [n for n in cfg.nodes if isinstance(n.ast, ast.Return) and
-               n.ast.value is not None and
-               not (isinstance(n.ast.value, ast.Constant) and
-                    n.ast.value.value is None)]
-    ok = False
-    from .. import norm
-    for n in cfg.nodes:
-        if n.kind != 'test' or n.ast is None:
-            continue
-        tt = ast.unparse(norm.subst_locals(a.node, n.ast))
-        if '_max_pos' in tt and '<' in tt:
-            if consume and all(cfg.edge_dominates(n, 'true', c)
-                               for c in consume):
-                ok = True
-    res.check(ok, 'R-C08-fence', a.qual,
-              '_accept consumes only below the fence',
-              'successful return dominated by `_max_pos is None or _pos < '
-              '_max_pos`', 'the fence is not consulted before consuming',
-              a.loc)
+    from ..absint.symbody import SymBody
+
+    def fence_fact(t, v):
+        """does (t is v) establish: no fence, or cursor below the fence?"""
+        txt = ast.unparse(t)
+        if '_max_pos' not in txt or not isinstance(t, ast.Compare) or \
+                len(t.ops) != 1:
+            return False
+        op, l, r = t.ops[0], ast.unparse(t.left), ast.unparse(
+            t.comparators[0])
+        if r == 'None' and '_max_pos' in l:
+            return (isinstance(op, (ast.Is, ast.Eq)) and v) or \
+                (isinstance(op, (ast.IsNot, ast.NotEq)) and not v)
+        if '_max_pos' in r and '_pos' in l and '_max_pos' not in l:
+            return (isinstance(op, ast.Lt) and v) or \
+                (isinstance(op, ast.GtE) and not v)
+        if '_max_pos' in l and '_pos' in r and '_max_pos' not in r:
+            return (isinstance(op, ast.Gt) and v) or \
+                (isinstance(op, ast.LtE) and not v)
+        return False
+    paths = SymBody(ctx, a).run(a.node.body)
+    consuming = [p for p in paths if p.end == 'return' and p.ret is not None
+                 and not (isinstance(p.ret, ast.Constant) and
+                          p.ret.value is None)]
+    if not consuming:
+        res.undecided('R-C08-fence', a.qual,
+                      '_accept consumes only below the fence',
+                      'no path of _accept returns a token', a.loc)
+    else:
+        bad = [p for p in consuming
+               if not any(fence_fact(t, v) for (t, v) in p.conds)]
+        res.check(not bad, 'R-C08-fence', a.qual,
+                  '_accept consumes only below the fence',
+                  'every one of the {} paths that return a token passes '
+                  '`_max_pos is None` or `_pos < _max_pos`'.format(
+                      len(consuming)),
+                  'a token is returned on a path that never compares the '
+                  'cursor with the fence ({})'.format(
+                      bad[0].cond_text()[-120:] if bad else ''), a.loc)
     # the fence is the end of the line: scan stops at TokNewline
     s = model.func(P + ':Parser._stat')
     ok, why = _fence_is_line_end(ctx, s)
